@@ -149,6 +149,38 @@ fn judge(case: &SchedCase, prep: &State, snap: &Snap, legit: &(BTreeSet<String>,
                         out.push(Finding { property: "C08", what: format!("content present at the crash instant is lost by the next build: {}", at), detail: format!("{:?}", show(lost)) });
                     }
                 }
+                // life goes on after the recovery: every single leaf edit followed by a build must
+                // again give the from-scratch result and leave the cache content-addressed
+                for (leaf, dom) in case.sc.edits.iter()
+                {
+                    for v in dom.iter()
+                    {
+                        if rr.fs.read(leaf).as_ref() == Some(v) || dom.len() < 2 { continue; }
+                        let mut fs2 = rr.fs.clone();
+                        user_write(&mut fs2, leaf, v.clone());
+                        let r2 = run_build(&fs2, &rc, &None);
+                        if let Some((exp2, scope2, ev2)) = expected_verdict(rules, &fs2, &None)
+                        {
+                            if exp2 == Verdict::Ok
+                            {
+                                let mut wrong = r2.verdict != Verdict::Ok;
+                                if !wrong
+                                {
+                                    for r in &scope2 { for t in rules[*r].sorted_targets() { if ev2.values.get(&t).map(|x| x.0.clone()) != r2.fs.read(&t) { wrong = true; } } }
+                                }
+                                if wrong
+                                {
+                                    out.push(Finding { property: "C11", what: format!("after recovering, an edit and a build give a wrong result or fail when ruler had been {}", at),
+                                        detail: format!("edit {} then build: {:?} {:?}", leaf, r2.verdict, workspace_view(&r2.fs)) });
+                                }
+                                for b in cache_audit(&r2.fs)
+                                {
+                                    out.push(Finding { property: "C07", what: format!("cache not content-addressed two builds after a crash: {}", at), detail: b });
+                                }
+                            }
+                        }
+                    }
+                }
                 for r in &scope
                 {
                     for t in rules[*r].sorted_targets()
@@ -354,6 +386,7 @@ pub fn run_crash(rep: &mut Report, tier: &str, id: &str)
     rep.add("torn_write_states", total_torn);
     rep.add("journaling_schedules", total_sched);
     rep.add("recovery_builds", total_recoveries);
+    rep.set("follow_up", json!("after every recovery build: every single leaf edit + build, judged by the C01 and C07 oracles"));
     rep.set("exhaustive", json!(exhaustive));
     rep.set("per_case", json!(per));
 }
